@@ -606,6 +606,16 @@ class ChallengeScenario(Scenario):
             rec.check()
             rec.relevant += 1
             text = repr(vals[i]) + str(vals[i]) + repr(tuple(vals[i])) + repr(vars(vals[i]) if hasattr(vals[i], "__dict__") else "")
+            # the documented text form "salt:digest" parses back to the same salt and digest
+            back, pe = self._call(lambda: DigestValue.parse(str(vals[i]), vals[i].algorithm))
+            if pe is not None or back.salt != vals[i].salt or back.digest != vals[i].digest:
+                rec.fail("C09/persist", "C09/text-form-does-not-parse-back", "DigestValue.parse(str(v)) gave %r / %r" % (back, pe))
+            # an explicit salt of at least the digest size is used (truncated to it); hash(salt + p) again
+            size = refcrypto.DIGEST_SIZE[f["alg"]]
+            salt = bytes(range(size + 5))
+            dv, ce = self._call(lambda: DigestValue.create(pt, vals[i].algorithm, salt=salt))
+            if ce is not None or dv.salt != salt[:size] or dv.digest != refcrypto.salted_hash(f["alg"], salt[:size], pt):
+                rec.fail("C09/hash", "C09/explicit-salt-not-used", "DigestValue.create with an explicit salt gave %r / %r" % (dv, ce))
             try:
                 s = pt.decode("utf-8")
             except UnicodeDecodeError:
